@@ -756,6 +756,13 @@ func main() {
 				concReplay(cfg, o, ws[1:])
 			}
 		}
+		if mode == "copy" {
+			for _, l := range hlib.ReplayLines(cfg.Replay) {
+				if ws := strings.Fields(l); len(ws) > 0 && (ws[0] == "copy" || ws[0] == "e2e") {
+					copyReplay(o, ws)
+				}
+			}
+		}
 		return
 	}
 	switch mode {
@@ -765,6 +772,8 @@ func main() {
 		modeInterp(cfg, o)
 	case "conc":
 		modeConc(cfg, o)
+	case "copy":
+		modeCopy(cfg, o)
 	default:
 		fmt.Fprintln(os.Stderr, "unknown mode", mode)
 		os.Exit(2)
